@@ -99,7 +99,7 @@ def gen_comments(rng, maxn, allow_date=None):
     return lines, tags, date
 
 
-def gen_journal(rng, nx):
+def gen_journal(rng, nx, header=()):
     """-> (text, postings) ; a posting is a dict with what the model's record needs"""
     out, posts = [], []
     line = 0
@@ -109,6 +109,9 @@ def gen_journal(rng, nx):
         out.append(s)
         line += 1
         return line
+
+    for h in header:
+        emit(h)
 
     for _ in range(nx):
         xdate = D0 + datetime.timedelta(days=rng.randrange(0, 70))
@@ -586,12 +589,17 @@ def run(ctx, scale=1):
                 '(virtual/balanced-virtual postings, states, codes, notes, tags, posting dates, zero amounts, 3 '
                 'commodities) x 12 limit settings; non-trivial = the run selects a non-empty proper subset or errors; '
                 'distinct by argv / by journal+limit text')
+    res.rule += ('; (d) the posting-flag identifiers virtual real cleared pending uncleared actual through --limit ID, '
+                 '--limit not ID, the query `expr ID` and and/or/not combinations, judged against how the register '
+                 'displays each posting ((A)/[A]/bare account, the state marks written in the journal, accounts only an '
+                 'automated transaction generates); non-trivial = every run of a journal')
     res.rule += ('; (c) sequences of 1-6 limit contributions with repetitions and in two orders (--limit, -b, -e, -C, -U, '
                  '--pending, -R, -L, -c under a --now inside the journal, -p from/to, a query) against each contribution '
                  'alone; non-trivial = the sequence repeats a contribution or selects a non-empty proper subset')
     part_a(ctx, rng, res, scale)
     part_b(ctx, rng, res, scale)
     part_c(ctx, rng, res, scale)
+    part_d(ctx, rng, res, scale)
     return res
 
 
@@ -1033,6 +1041,200 @@ def oracle_c(res, m, got):
             return
 
 
+# ---------------------------------------------------------------- (d) posting-flag identifiers against the display
+FMT_D = FMT[:-2] + '|%(display_account)|%(xact.beg_line)\\n'
+RULE_ACCOUNTS = ('Budget:Auto', 'Rule:Left', 'Rule:Right')
+FLAG_IDS = ['virtual', 'real', 'cleared', 'pending', 'uncleared', 'actual']
+
+
+def gen_flag_tree(rng, names, depth):
+    if depth <= 0 or rng.random() < 0.3:
+        return ('id', rng.choice(names))
+    r = rng.random()
+    if r < 0.3:
+        return ('not', gen_flag_tree(rng, names, depth - 1))
+    return (rng.choice(['and', 'or']), gen_flag_tree(rng, names, depth - 1), gen_flag_tree(rng, names, depth - 1))
+
+
+def flag_eval(t, fl):
+    if t[0] == 'id':
+        return fl[t[1]]
+    if t[0] == 'not':
+        return not flag_eval(t[1], fl)
+    a, b = flag_eval(t[1], fl), flag_eval(t[2], fl)
+    return (a and b) if t[0] == 'and' else (a or b)
+
+
+def flag_query(rng, t):
+    """a flag tree as a command-line query: expr ID leaves, query-level not/and/or -> (argv, ext)"""
+    ext = []
+
+    def go(t, lvl):
+        if t[0] == 'id':
+            ext.append((t[1], t))
+            return ['expr', t[1]]
+        if t[0] == 'not':
+            return [rng.choice(['not', '!']), '('] + go(t[1], 0) + [')']
+        op = {'and': ['and', '&'], 'or': ['or', '|']}[t[0]]
+        inner = ['('] + go(t[1], 0) + [')', rng.choice(op), '('] + go(t[2], 0) + [')']
+        return inner
+    return go(t, 0), ext
+
+
+def run_reg_d(journal, limits):
+    args = ['-f', journal, '--now', NOW, 'reg', '--empty', '--format', FMT_D]
+    tail = []
+    for l in limits:
+        if l[0] == 'e':
+            args += ['--limit', l[1]]
+        else:
+            tail += list(l[1])
+    st, out, err = lib.run_ledger(args + tail)
+    if st not in (0, 1):
+        return 'CRASH(%s)' % st, []
+    if st != 0 or b'Error' in err:
+        return 'ERR', []
+    return 'OK', [r for r in out.decode('utf-8', 'replace').split('\n') if r]
+
+
+def part_d(ctx, rng, res, scale):
+    nd = ctx.scale(110, 700) * scale
+    jobs, metas = [], []
+    for j in range(nd):
+        rule = rng.random() < 0.3
+        header = []
+        if rule:
+            header = ['= /%s/' % rng.choice(['Expenses', 'Assets:Cash', 'Income', 'Food', 'a'])]
+            k = rng.choice([0, 1, 2])
+            if k in (0, 2):
+                header.append('    (Budget:Auto)    %s' % rng.choice(['0.5', '2', '$1.00']))
+            if k in (1, 2):
+                header += ['    [Rule:Left]    $1.00', '    [Rule:Right]    $-1.00']
+            header.append('')
+        text, posts = gen_journal(rng, rng.choice([2, 3, 4, 5]), header=header)
+        path = ctx.path('d%d.dat' % j)
+        open(path, 'w').write(text)
+        names = ['virtual', 'real', 'actual'] if rule else FLAG_IDS
+        runs = [('all', [], None)]
+        for n in names:
+            t = ('id', n)
+            runs.append(('is:' + n, [('e', n, t)], t))
+            runs.append(('not:' + n, [('e', rng.choice(['!%s', 'not %s', '!(%s)']) % n, ('not', t))], ('not', t)))
+            runs.append(('q:' + n, [('qry', ['expr', n], [(n, t)])], t))
+        for i in range(4):
+            t = gen_flag_tree(rng, names, rng.choice([1, 2, 2, 3]))
+            if i % 2 == 0:
+                runs.append(('tree%d' % i, [('e', render_expr(t, rng), t)], t))
+            else:
+                argv, ext = flag_query(rng, t)
+                runs.append(('qtree%d' % i, [('qry', argv, ext)], t))
+        metas.append(dict(j=j, path=path, text=text, posts=posts, rule=rule, runs=runs))
+        for name, limits, _ in runs:
+            jobs.append((path, limits))
+    outs = pmap(lambda jb: run_reg_d(jb[0], jb[1]), jobs)
+    lines = [lib.sx(['f', 'd%d' % m['j'], ['posts'] + [post_sx(p) for p in m['posts']],
+                     ['runs'] + [['run', name.replace(':', '_')] + [limit_sx(l) for l in limits] for name, limits, _ in m['runs']]])
+             for m in metas if not m['rule']]
+    model = iter(lib.run_model('C07', lines))
+    k = 0
+    for m in metas:
+        got = {}
+        for name, limits, t in m['runs']:
+            st, rows = outs[k]
+            k += 1
+            got[name] = (st, rows)
+            res.evaluations += 1
+            res.count('d:%s:%s' % (name.split(':')[0].rstrip('0123456789'), st))
+            res.nontrivial.add('d:%d:%s' % (m['j'], name))
+            case = dict(journal=m['text'], flagrun=name, limits=[(l[0], l[1]) for l in limits])
+            if st.startswith('CRASH'):
+                res.violations.append(dict(key='flag:crash', desc='reg died (%s) under %s' % (st, case['limits']), case=case,
+                                           observed=st, required='a report'))
+            if not m['rule']:
+                mo = next(model).split(' ', 2)
+                res.traces += 1
+                mstat = 'ERR' if mo[2].startswith(('ERR', 'QERR')) else 'OK'
+                mrows = [r for r in mo[2][3:].split(';') if r] if mstat == 'OK' else []
+                irows = [canon_row(r) for r in rows]
+                if st != mstat or (st == 'OK' and irows != mrows):
+                    res.disagreements.append(dict(name='C07/flag-rows', case=case, impl=[st] + irows, model=[mstat] + mrows))
+        res.count('d:journal:' + ('with-rule' if m['rule'] else 'plain'))
+        if any(p['virtual'] and '[%s]' % p['account'] in m['text'] for p in m['posts']):
+            res.count('d:journal:has-balanced-virtual')
+        oracle_d(res, m, got)
+
+
+def oracle_d(res, m, got):
+    """each flag identifier selects exactly the postings the register displays that way"""
+    from collections import Counter
+
+    def viol(key, desc, runs, observed, required):
+        res.violations.append(dict(key=key, desc=desc,
+                                   case=dict(journal=m['text'], flagruns=[(n, [(l[0], l[1]) for l in lim]) for n, lim, _ in m['runs'] if n in runs]),
+                                   observed=observed, required=required))
+    st, rall = got['all']
+    if st != 'OK':
+        viol('flag:unfiltered-report-fails', 'reg without a limit failed', ['all'], st, 'a report')
+        return
+    marks = {str(p['id']): p['state'] for p in m['posts']}
+
+    def flags(row):
+        f = row.split('|')
+        disp, acct = f[6], f[1]
+        virt = disp[:1] in '([' and disp[-1:] in ')]'
+        fl = dict(virtual=virt, real=not virt, actual=acct not in RULE_ACCOUNTS)
+        s_ = marks.get(f[0]) if fl['actual'] else None
+        if s_ is not None:
+            fl.update(cleared=s_ == 'c', pending=s_ == 'p', uncleared=s_ == 'u')
+        return fl
+    # the display itself must agree with how the journal writes each actual posting
+    for row in rall:
+        f = row.split('|')
+        if f[1] in RULE_ACCOUNTS:
+            continue
+        p = [q for q in m['posts'] if str(q['id']) == f[0]]
+        if not p:
+            res.disagreements.append(dict(name='C07/journal-rendering', case=m['text'], impl=row, model='no such posting'))
+            return
+        shown = f[6][:1] in '(['
+        if shown != p[0]['virtual']:
+            viol('flag:display-account', 'a posting written %s is displayed as %s' % ('virtual' if p[0]['virtual'] else 'real', f[6]),
+                 ['all'], row, 'parentheses/brackets exactly for virtual postings')
+    for name, limits, t in m['runs']:
+        if t is None:
+            continue
+        st, rows = got[name]
+        want = [r for r in rall if flag_eval(t, flags(r))]
+        if st != 'OK':
+            viol('flag:%s:fails' % name.split(':')[-1].rstrip('0123456789'), '%s failed' % (limits,), [name], st, 'a report')
+        elif rows != want:
+            kind = name.split(':')[0].rstrip('0123456789')
+            ident = name.split(':')[1] if ':' in name else 'combination'
+            key = 'flag:%s:%s' % (ident, {'is': 'limit-vs-display', 'not': 'negation-vs-display', 'q': 'query-expr-vs-display',
+                                         'tree': 'combination-vs-display', 'qtree': 'query-combination-vs-display'}[kind])
+            viol(key, '%s reports %d rows %s; by the display (account shown as (A)/[A]/bare, state marks, rule accounts) it must report %s'
+                 % (' '.join(str(x) for l in limits for x in ([l[1]] if l[0] == 'e' else l[1])), len(rows),
+                    [r.split('|')[0] + ':' + r.split('|')[6] for r in rows], [r.split('|')[0] + ':' + r.split('|')[6] for r in want]),
+                 [name, 'all'], [r.split('|')[0] for r in rows], [r.split('|')[0] for r in want])
+            return
+    # relations between the identifiers
+    def rows_of(n):
+        return got[n][1] if got[n][0] == 'OK' else None
+    v, nr = rows_of('is:virtual'), rows_of('not:real')
+    if v is not None and nr is not None and v != nr:
+        viol('flag:virtual-differs-from-not-real', '--limit virtual and --limit "not real" select different postings', ['is:virtual', 'not:real'],
+             [r.split('|')[0] for r in v], [r.split('|')[0] for r in nr])
+    r_ = rows_of('is:real')
+    if v is not None and r_ is not None and Counter(v) + Counter(r_) != Counter(rall):
+        viol('flag:virtual-real-not-a-partition', 'virtual and real together are not all postings (or overlap)', ['is:virtual', 'is:real', 'all'],
+             (len(v), len(r_)), len(rall))
+    if not m['rule']:
+        parts = [rows_of('is:' + n) for n in ('cleared', 'pending', 'uncleared')]
+        if all(x is not None for x in parts) and sum((Counter(x) for x in parts), Counter()) != Counter(rall):
+            viol('flag:state-not-a-partition', 'cleared, pending and uncleared do not partition the postings', ['is:cleared', 'is:pending', 'is:uncleared'],
+                 [len(x) for x in parts], len(rall))
+
+
 def search(ctx, broken):
     import random
     for s in range(3):
@@ -1051,6 +1253,27 @@ def replay(ctx, obj):
         print('replay: query %r -> %s (required %s)' % (case['argv'], got, obj.get('required')))
         if got == obj.get('observed'):
             res.violations.append(dict(key=obj['key'], desc=obj['desc']))
+        return res
+    if 'flagruns' in case or 'flagrun' in case:
+        path = ctx.path('replay.dat')
+        open(path, 'w').write(case['journal'])
+        st, rall = run_reg_d(path, [])
+        print('replay: all -> %s %s' % (st, [r.split('|')[0] + ':' + r.split('|')[6] for r in rall]))
+        bad = False
+        for name, limits in case.get('flagruns', []):
+            if name == 'all':
+                continue
+            st, rows = run_reg_d(path, [tuple(l) for l in limits])
+            print('replay: %s %s -> %s %s' % (name, limits, st, [r.split('|')[0] + ':' + r.split('|')[6] for r in rows]))
+            kind, _, ident = name.partition(':')
+            if kind in ('is', 'not', 'q') and ident in ('virtual', 'real'):
+                isv = lambda r: r.split('|')[6][:1] in '(['
+                sel = {('is', 'virtual'): isv, ('q', 'virtual'): isv, ('not', 'real'): isv}.get((kind, ident), lambda r: not isv(r))
+                if st != 'OK' or rows != [r for r in rall if sel(r)]:
+                    bad = True
+        if bad or not case.get('flagruns'):
+            print('replay: the rows differ from what the display requires')
+            res.violations.append(dict(key=obj.get('key', 'flag'), desc=obj.get('desc', '')))
         return res
     if 'seq' in case:
         path = ctx.path('replay.dat')
